@@ -6,6 +6,16 @@ ALL = ["C%02d" % i for i in range(1, 21)]
 
 # property -> dict(level, text, note, technique, engine, design_ref)
 CLAIMED = {
+  "C08": dict(level="exploration", engine="E1-CLI+E3",
+    text="Bounded-exhaustive cross product of a fixed rule pool (string and object-form fixes; expandStart / expandEnd / both / stopBy variants; pattern, kind, any, relational matchers; 16 JavaScript rules, thorough +6 JS, 5 Python, 5 Rust) with every sequence of <= 3 (thorough <= 4) statements from a 7 (8) statement alphabet; each (rule, source) is observed through scan --json, scan -U, `sg test -U` snapshots, the library (make_edit, Node::replace, replace_all, AstGrep::replace) and the real language server (diagnostics, quick-fix, fix-all via the E3 executor) and judged for identical (byte range, replacement); quick 6 384 cases / 57 456 front-end comparisons, thorough 103 800 / 934 200.",
+    note="Agreement oracle plus one anchor (for expansions the announced range is also compared with a range computed from hand-written token trees, so a bug shared by all front ends is not invisible); trimming of trailing punctuation cannot occur through rule matchers and is exercised only as agreement; `ast-grep run` is observed and counted, not judged; -U is judged only when announced edits are disjoint (C18 covers overlaps).",
+    technique="bounded-exhaustive enumeration of (rule, source) pairs; differential comparison of five front ends of the real binary / library / LSP service",
+    design_ref="DESIGN.md §3 C08"),
+  "C17": dict(level="model_checking", engine="E2",
+    text="Stateless model checking of the real binary's producer/consumer core: ast-grep built with --cfg ast_grep_verif runs its T walker threads and the printer thread under a cooperative scheduler (schedule points: take next path, every tx.send, every rx.recv; the consumer is blocked, not spinning, while the channel is empty); the outer explorer enumerates every schedule by DFS over choice prefixes with iterative preemption bounding (quick: T=1; T=2 bound 2; T=3 bound 1; thorough T<=3 bound 2-3) on directories of colliding files (same rules in two files, a host+injected-language .html), crossed with every subset of {empty, non-UTF-8, unreadable} files, the three JSON styles and --update-all; every schedule is one execution of the real binary and replays identically. Oracle: records == union of single-file runs, output well-formed, exit status and error summary as implied by the findings, no deadlock.",
+    note="Real under E2: the run_worker closure body, produce_item, the std mpsc channel, Items::next, consume_items, all printers, error_count, the exit path. Substituted: the `ignore` crate's distribution of entries to threads (only covered by a supplementary sampled pass at -j 1..16 that is reported, not deciding). Unreadable files are injected at a fault point in read_file (the sandbox is root).",
+    technique="stateless model checking of the implementation under a controlled scheduler (cfg hooks) with preemption bounding, crossed with exhaustive fault-subset enumeration",
+    design_ref="DESIGN.md §3 C17, Appendix B.1"),
   "C12": dict(level="exploration", engine="E1",
     text="Bounded-exhaustive exploration: every one-perturbation neighbour of every base rule document of a cross product of valid parts (rule with 1-2 variables or an ellipsis, utils used directly and under all/any/not/inside/has incl. chains and nthChild.ofRule, constraints incl. one binding a further variable, 0-3 chained transforms, 0-2 (nested) rewriters, fix in string form and three object forms) is loaded through from_yaml_string (quick 6 400 bases / 395 812 distinct perturbed documents, thorough 33 712 / 1 962 609): a document the reference analysis ref_vars calls inconsistent (undefined variable in fix / transform source / constraints key, unresolved matches or rewriter id, transform cycle, same-node utility cycle through matches/all/any/not/nthChild.ofRule, no kind-bearing atom) must be rejected; and every base document is run on a matching source, its fix text (string and object form) and message compared with a reference template expansion over the match environment.",
     note="Only-if direction only (documents ref_vars still considers valid are loaded but not judged); all subject calls run in restartable child processes so a stack overflow is attributed to the case in flight; JavaScript only; cycles through relational operators are not generated (they move to another node; crash-freedom there is C11's subject).",
